@@ -245,7 +245,7 @@ def denote(vf):
     return {'signals': signals, 'scopes': scopes, 'timestamps': ts, 'values': values, 'widths': widths, 'ids': ids}
 
 
-def simple_vcd(rng, n_idx, sigs=None, scope='top', xz=0.1):
+def simple_vcd(rng, n_idx, sigs=None, scope='top', xz=0.1, xz_names=('a', 'd')):
     """a small regular trace for navigation / scan properties: `n_idx` timestamps, every signal assigned at
     every timestamp with a (mostly) changing value; returns (vf, denotation)"""
     sigs = sigs or [('clk', 1), ('a', 1), ('d', 4), ('cnt', 8)]
@@ -268,9 +268,9 @@ def simple_vcd(rng, n_idx, sigs=None, scope='top', xz=0.1):
             elif nm == 'cnt':
                 dump.append(['vector', bin(i % (1 << w))[2:], vid])
             elif w == 1:
-                dump.append(['scalar', rng.choice('01' * 5 + 'x') if rng.random() < xz * 3 else rng.choice('01'), vid])
+                dump.append(['scalar', rng.choice('01' * 5 + 'x') if (nm in xz_names and rng.random() < xz * 3) else rng.choice('01'), vid])
             else:
-                dump.append(['vector', gen_bits(rng, w, xz=xz, style='min'), vid])
+                dump.append(['vector', gen_bits(rng, w, xz=xz if nm in xz_names else 0.0, style='min'), vid])
     vf = {'header': header, 'dump': dump}
     return vf, denote(vf)
 
